@@ -551,7 +551,24 @@ class Normaliser:
             return body[:i] + [first, second]
         return body
 
+    in_function = 0
+
     def stmt(self, st: ast.stmt) -> list[ast.stmt]:
+        if isinstance(st, (ast.FunctionDef, ast.AsyncFunctionDef)):
+            self.in_function += 1
+            try:
+                return self.stmt_(st)
+            finally:
+                self.in_function -= 1
+        if isinstance(st, ast.ClassDef):
+            saved, self.in_function = self.in_function, 0
+            try:
+                return self.stmt_(st)
+            finally:
+                self.in_function = saved
+        return self.stmt_(st)
+
+    def stmt_(self, st: ast.stmt) -> list[ast.stmt]:
         # children first
         for fld in ("body", "orelse", "finalbody"):
             v = getattr(st, fld, None)
@@ -587,6 +604,9 @@ class Normaliser:
             ap = ast.Expr(value=ast.Call(func=ast.Attribute(value=copy.deepcopy(tgt.value), attr="append", ctx=ast.Load()), args=[st.value.elts[0]], keywords=[]))
             self.hit("tail-slice-assign->del+append")
             return [ast.fix_missing_locations(ast.copy_location(d, st)), ast.fix_missing_locations(ast.copy_location(ap, st))]
+        if isinstance(st, ast.AnnAssign) and st.value is None and isinstance(st.target, ast.Name) and self.in_function:
+            self.hit("bare-local-annotation-dropped")   # `x: T` inside a function neither binds nor evaluates anything
+            return []
         if isinstance(st, (ast.If, ast.While)):
             r = self.unwalrus(st)
             if r is not None:
@@ -728,6 +748,16 @@ class _Expr(ast.NodeTransformer):
                 acc = ast.BinOp(left=acc, op=ast.Add(), right=x)
             self.n.hit("join->concat")
             return ast.fix_missing_locations(ast.copy_location(acc, node))
+        # f(*(a, b))  ==>  f(a, b)
+        if any(isinstance(a, ast.Starred) and isinstance(a.value, (ast.Tuple, ast.List)) and not any(isinstance(x, ast.Starred) for x in a.value.elts) for a in node.args):
+            na: list[ast.expr] = []
+            for a in node.args:
+                if isinstance(a, ast.Starred) and isinstance(a.value, (ast.Tuple, ast.List)) and not any(isinstance(x, ast.Starred) for x in a.value.elts):
+                    na.extend(a.value.elts)
+                else:
+                    na.append(a)
+            node.args = na
+            self.n.hit("starred-literal-spliced")
         # an explicit "no timeout":  x.wait(timeout=None) / x.get(timeout=None) / x.join(None)  ==>  x.wait() / x.get() / x.join()
         nm_ = f.attr if isinstance(f, ast.Attribute) else None
         if nm_ in ("get", "wait", "join", "receive", "waitclose", "waitfinish", "waitall"):
